@@ -23,9 +23,13 @@ def check(ctx):
     # ... and, in a generated timeline, every animated property (C17/G6)
     from rules import derive_rules
     derive_rules.rule_blend_wiring(ctx, "R8")
-    ctx.notes.append("not decided: that update at time 0 reproduces the override exactly as a float value "
-                     "(ease(0)=0 and lerp at 0 are covered structurally by C02/R1 and C13); equality of values over "
-                     "real histories")
+    # the first evaluation after the switch reproduces the blended start value only if the easing maps 0 to exactly 0 and the
+    # interpolation at 0 returns its first argument exactly (C13/R1-R3, C14/R1)
+    from rules import c13, c14
+    c13.include_endpoints(ctx, "R9")
+    c14.rule_endpoints(ctx, ctx.facts, "R9")
+    ctx.notes.append("not decided: equality of values over real histories (the rules decide the structure that makes the "
+                     "first evaluation after a switch return the values held at the switch)")
     ctx.assumptions += ["MapLike::get/get_mut are projections to the entry stored under the key (trait contract; "
                         "the EnumMap impl is checked in C05/R7)", "Clone for the state type is a faithful copy",
                         "PartialEq for the state type is an equivalence"]
